@@ -585,6 +585,8 @@ func flowsToReader(v ssa.Value) bool {
 var allocSignTable = map[string]string{
 	"(*runtime.cellPool).get:make([]runtime.Cell, n)":   "the size is Code.CellCount: counted up from zero by the code generator, and (*breader).readCode rejects negative counts in dumped chunks",
 	"(*runtime.valuePool).get:make([]runtime.Value, n)": "the size is Code.RegCount: counted up from zero by the code generator, and (*breader).readCode rejects negative counts in dumped chunks",
+	"(runtime.cellPool).get:make([]runtime.Cell, n)":    "noregpool build: same sizes as above (Code.CellCount)",
+	"(runtime.valuePool).get:make([]runtime.Value, n)":  "noregpool build: same sizes as above (Code.RegCount)",
 	"lib/stringlib.UnpackString:make([]byte, n)":        "zi - u.j: zi starts at u.j and the scan loop only increments it",
 }
 
